@@ -149,11 +149,17 @@ def check_c14(tier, seed):
                     samples.append({"scenario": scn["id"], "orders": len(runs[0]["ledger"]), "ledger_head": runs[0]["ledger"][:2], "hashseeds": [os.environ.get("PYTHONHASHSEED"), 1, 4242], "aborted_run_error": tr2["error"]})
         # state kept across markets and hours on the framework's clock (the hourly transaction count of a client with a
         # limit): the same run under a wall clock that is shifted, and under one that runs fast (twenty minutes per reading)
-        for i in range(4 if tier == "quick" else 40):
-            g = Gen(seed * 92821 + i, {"p_txlimit": 1.0, "n_markets": (2, 3), "market_starts": [100000, 3700000, 7300000], "gaps": [100, 1000, 60000, 600000], "p_action": 0.9,
-                                       "max_orders": 12, "n_updates": (5, 10)})
-            scn = g.scenario("dt%d" % i)
-            scn["cfg"]["transaction_limit"] = g.rnd.choice([1, 2, 3, 5])
+        for i in range(6 if tier == "quick" else 60):
+            if i % 2 == 0:
+                g = Gen(seed * 92821 + i, {"p_txlimit": 1.0, "n_markets": (2, 3), "market_starts": [100000, 3700000, 7300000], "gaps": [100, 1000, 60000, 600000], "p_action": 0.9,
+                                           "max_orders": 12, "n_updates": (5, 10)})
+                scn = g.scenario("dt%d" % i)
+                scn["cfg"]["transaction_limit"] = g.rnd.choice([1, 2, 3, 5])
+            else:
+                # cool-downs between placements on a runner (place_reset_seconds / reset_seconds of a trade) and trade-count limits
+                g = Gen(seed * 92821 + i, {"p_cooldown": 1.0, "p_limits": 0.5, "p_multi_trade": 0.4, "gaps": [40, 100, 120, 1000, 5000], "p_action": 0.9, "max_orders": 12,
+                                           "n_updates": (6, 12), "p_cancel": 0.15, "p_replace": 0.1})
+                scn = g.scenario("dt%d" % i)
             sp = os.path.join(wd, "scn_dt_%d.json" % i)
             with open(sp, "w") as f:
                 json.dump(scn, f)
